@@ -98,7 +98,9 @@ def floors(tier: str) -> dict[str, int]:
         "analysis_pairs:fs": 60 * k,
         "analysis_pairs:route": 50 * k,  # loaders that route on the load context (tag=..., context)
         "analysis_pairs:route-suspend": 50 * k,
-        "cases_with:deep-selector": 150 * k,  # bracketed selectors nested 2-4 levels deep
+        "cases_with:deep-selector": 150 * k,
+        "cases_with:loader-matter": 120 * k,  # loaders / from_string that pin matter to the root
+        "hook:matter_layer_answers": 1_000 * k,  # global-namespace lookups answered by matter  # bracketed selectors nested 2-4 levels deep
         "cases_with:reader-after-binder": 150 * k,
         "cases_with:scoped-partial": 100 * k,
         "facts:lookups": 8_000 * k,
@@ -219,10 +221,35 @@ def pick_loader(*parts: Any) -> str:
     """suspending dict 30 % / file system 14 % / tag-routing 12 % / tag-routing + suspending 12 % /
     plain dict 32 %, a pure function of the case id."""
     x = random.Random(":".join(map(str, parts))).random()
-    for lim, kind in ((0.30, "suspend"), (0.44, "fs"), (0.56, "route"), (0.68, "route-suspend")):
+    for lim, kind in ((0.26, "suspend"), (0.38, "fs"), (0.49, "route"), (0.60, "route-suspend"),
+                      (0.66, "matter-dict"), (0.72, "matter-dict-async"), (0.76, "matter-fs"),
+                      (0.82, "matter-fromstring")):
         if x < lim:
             return kind
     return "dict"
+
+
+def add_matter(case: dict[str, Any], *seed: Any) -> None:
+    """Loader matter for the root (and some partials): names from the SAME pool the templates
+    read, values from the first data set.  Matter is global data: nothing binds these names."""
+    if case.get("loader") not in MON.MATTER_KINDS:
+        return
+    r = random.Random(":".join(map(str, seed)))
+    pool = sorted(G.GLOBALS)
+    d0 = (case.get("datasets") or [{}])[0]
+
+    def some(k: int) -> dict[str, Any]:
+        out = {}
+        for n in r.sample(pool, k):
+            v = d0.get(n, "m")
+            out[n] = list(v) if isinstance(v, tuple) else v
+        return out
+
+    matter = {case["root"]: some(r.randint(2, 6))}
+    for n in sorted(case.get("partials") or ())[:2]:
+        matter[n] = some(r.randint(1, 3))
+    case["matter"] = matter
+    case.setdefault("features", []).append("loader-matter")
 
 
 def add_decoys(case: dict[str, Any]) -> None:
@@ -267,7 +294,7 @@ def _run(ctx: Ctx, chk: MON.Checker, case: dict[str, Any], origin: Any) -> None:
     ctx.count("cases")
     for f in case.get("features") or ():
         ctx.seen("features", f)
-        if f in ("reader-after-binder", "scoped-partial", "deep-selector"):
+        if f in ("reader-after-binder", "scoped-partial", "deep-selector", "loader-matter"):
             ctx.count("cases_with:" + f)
     if res:
         report(ctx, case, res, origin)
@@ -289,6 +316,7 @@ def _own(spec: dict[str, Any], ctx: Ctx, dynamic: bool = False) -> None:
         if dynamic and case["loader"].startswith("route"):
             case["loader"] = "suspend"
         add_decoys(case)
+        add_matter(case, spec["seed"], "matter", spec["kind"], spec["i"], j)
         _run(ctx, chk, case, [spec["kind"], spec["seed"], spec["i"], j])
         last = case
         if j < 2 and spec["i"] == 0:
@@ -372,6 +400,7 @@ def _shared(spec: dict[str, Any], ctx: Ctx) -> None:
                 "partials": sorted(em.partials),
                 "features": ["shared-generator", "shared:comments-layout"]}
         add_decoys(case)
+        add_matter(case, spec["seed"], "matter", "shared", spec["i"], j)
         _run(ctx, chk, case, ["shared", spec["seed"], spec["i"], j])
         if j == 0 and spec["i"] == 0:
             ctx.sample({"kind": "shared", "root": root, "templates": templates})
@@ -609,11 +638,12 @@ def _hand(spec: dict[str, Any], ctx: Ctx) -> None:
         datas = [G.make_data(rng, v) for v in range(DATASETS)]
         binders = HAND_EXPLICIT | certain_implicit_binders(templates)
         parts = sorted({m for src in templates.values() for m in RE_PARTIAL_LITERAL.findall(src)})
-        for lk in MON.LOADER_KINDS:
+        for lk in MON.LOADER_KINDS + MON.MATTER_KINDS:
             case = {"templates": templates, "root": root, "dynamic": False, "binders": sorted(binders),
                     "datasets": datas, "loader": lk, "partials": parts,
                     "features": ["hand:" + label, "loader:" + lk]}
             add_decoys(case)
+            add_matter(case, spec["seed"], "matter", "hand", label, lk)
             _run(ctx, chk, case, ["hand", label, lk])
     ctx.sample({"kind": "hand", "templates": HAND[0][1]})
 
